@@ -96,6 +96,7 @@ class Victim:
 
 # ---------------------------------------------------------------------------------------------
 # message specs -> bytes (the harness's own encoder; payloads come from the real serializers)
+_SER_CODES = None
 BASES = ["connect", "invoke", "boom", "ping", "ow", "batch", "garbage", "unknown_member", "private_member", "gen", "blob", "daemon_ping", "it"]
 OBJS = ["tok", "tok", "tok", "nope", "Pyro.Daemon"]
 BOUND8 = [0, 1, 0x7f, 0x80, 0xff]
@@ -314,7 +315,7 @@ class HostileWorld(World):
     PROBES = ["pool_full_refusal", "exc_response_fallback", "unknown_serializer", "oversize_refused", "truncated",
               "garbage", "hostile_after_handshake", "hostile_before_handshake", "rst_end", "witness_calls_ok", "fresh_client_ok",
               "nasty_exception", "multiplex", "thread", "commtimeout", "stalling_peer", "disconnect_hook_raised", "short_linger",
-              "logwire", "abandoned_stream_expired"]
+              "logwire", "abandoned_stream_expired", "dribbling_refused_peer"]
     RULE = ("plan = (server type, COMMTIMEOUT, pool size 1..4, 1-2 witnesses x 3-6 calls, 1-3 hostile peers each with a script of "
             "1-4 message specs = valid base message + field mutations + truncation, end by close or RST, gaps, fragmentation, "
             "selector shuffle, scheduling probabilities; 25% of the plans give the daemon a clientDisconnect hook that raises (for "
@@ -365,7 +366,34 @@ class HostileWorld(World):
             plan["lifetime"] = 1.0
         if rng.random() < 0.15:
             plan["logwire"] = True
+        if servertype == "thread" and rng.random() < 0.3:
+            # workers encode replies for hostile peers and witnesses at the same time: pre-emption inside the serializers,
+            # and the hostile peers speak the witnesses' serializer so that they share its encoder
+            plan["ser_lines"] = True
+            plan["p_line"] = rng.choice([0.02, 0.1])
+            sid = SER_IDS[plan["serializer"]]
+            for peer in peers:
+                for m in peer["msgs"]:
+                    if rng.random() < 0.8:
+                        m["ser"] = sid
+        if commt and rng.random() < 0.3:
+            # a refused peer that stays connected and keeps dribbling bytes (one every 0.2 s, for 25 s): after the refusal the
+            # daemon must be done with it
+            peers.append({"start": rng.choice([0, 0.1]), "gap": 0, "read": False, "end": "dribble",
+                          "msgs": [{"base": "connect", "obj": "tok", "ser": rng.choice([1, 2, 3, 4]), "arg": 0, "seq": 0,
+                                    "mut": [{"f": "version", "v": rng.choice([0, 501, 65535])}]}]})
         return plan
+
+    def line_codes(self, plan):
+        global _SER_CODES
+        if not plan.get("ser_lines"):
+            return ()
+        if _SER_CODES is None:
+            from .. import sched as S
+            _SER_CODES = S.code_objects(*[v for v in vars(SER).values()
+                                          if (isinstance(v, type) and v.__module__ == SER.__name__) or
+                                          (hasattr(v, "__code__") and getattr(v, "__module__", "") == SER.__name__)])
+        return _SER_CODES
 
     # ------------------------------------------------------------------
     def scenario(self, ctx):
@@ -516,7 +544,17 @@ class HostileWorld(World):
                         pass
             except OSError:
                 pass
-            if peer["end"] == "rst":
+            if peer["end"] == "dribble":
+                ctx.probe("dribbling_refused_peer")
+                t_end = sched.now + 25.0
+                try:
+                    while sched.now < t_end:
+                        sk.sendall(b"\x00")
+                        sched.sleep(0.2)
+                except OSError:
+                    pass
+                sk.close()
+            elif peer["end"] == "rst":
                 ctx.probe("rst_end")
                 sk.rst()
             else:
